@@ -923,4 +923,70 @@ theorem castV_sign {m : Nat} (s : Nat → Rat) (h : ∀ x, x < m → s x = 1 ∨
     castV s x = 1 ∨ castV s x = -1 := by
   rcases h x.val x.isLt with e | e <;> simp [castV, e]
 
+
+/-! ## Level-1 moment matrices (index set `{1} ⊕ X ⊕ Y`, ±1 observables) -/
+
+section NPA1
+variable {X Y : Type*} [Fintype X] [Fintype Y]
+
+/-- a moment matrix on `X ⊕ Y` extends to the level-1 index set `{1} ⊕ X ⊕ Y` with vanishing one-body terms -/
+theorem isMoment_extend (Γ : Matrix (X ⊕ Y) (X ⊕ Y) ℂ) (h : IsMoment Γ) :
+    IsMoment (Matrix.fromBlocks (1 : Matrix Unit Unit ℂ) 0 0 Γ) := by
+  refine ⟨?_, ?_⟩
+  · have h0 : (0 : Matrix (X ⊕ Y) Unit ℂ) = (0 : Matrix Unit (X ⊕ Y) ℂ)ᴴ := by simp
+    have : Invertible (1 : Matrix Unit Unit ℂ) := invertibleOne
+    rw [h0, Matrix.PosDef.fromBlocks₁₁ _ _ Matrix.PosDef.one]
+    simpa using h.1
+  · rintro (u | i)
+    · simp
+    · simpa using h.2 i
+
+theorem npa1_le_dual' [DecidableEq X] [DecidableEq Y] (D : X → Y → ℝ) (a : X → ℝ) (b : Y → ℝ)
+    (R : Matrix (Unit ⊕ (X ⊕ Y)) (Unit ⊕ (X ⊕ Y)) ℂ)
+    (hR : IsMoment R) (hZ : (tsirelsonDual D a b).PosSemidef) :
+    ∑ x, ∑ y, D x y * (R (.inr (.inl x)) (.inr (.inr y))).re ≤ (∑ x, a x + ∑ y, b y) / 2 := by
+  have := tsirelson_weak_duality_sum D a b _ (isMoment_submatrix hR Sum.inr) hZ
+  simpa using this
+
+end NPA1
+
+
+/-! ## From the projector basis `(1, A_x^0, B_y^0)` of toqito's NPA matrix to ±1 observables -/
+
+section Basis
+variable {ι : Type*} [Fintype ι] [DecidableEq ι]
+
+/-- change of basis `1 ↦ 1`, `P_i ↦ S_i = 2 P_i − 1` -/
+def basisChange (ι : Type*) [Fintype ι] [DecidableEq ι] : Matrix (Unit ⊕ ι) (Unit ⊕ ι) ℂ :=
+  Matrix.fromBlocks 1 0 (Matrix.of fun _ _ => (-1 : ℂ)) ((2 : ℂ) • (1 : Matrix ι ι ℂ))
+
+theorem basisChange_entry (R : Matrix (Unit ⊕ ι) (Unit ⊕ ι) ℂ) (i j : ι) :
+    (basisChange ι * R * (basisChange ι)ᴴ) (.inr i) (.inr j)
+      = 4 * R (.inr i) (.inr j) - 2 * R (.inr i) (.inl ()) - 2 * R (.inl ()) (.inr j) + R (.inl ()) (.inl ()) := by
+  simp only [Matrix.mul_apply, Fintype.sum_sum_type, basisChange, Matrix.conjTranspose_apply,
+    Matrix.fromBlocks_apply₂₁, Matrix.fromBlocks_apply₂₂, Matrix.of_apply, Matrix.smul_apply, Matrix.one_apply,
+    Finset.univ_unique, Finset.sum_singleton, smul_eq_mul, mul_ite, mul_one, mul_zero, ite_mul, zero_mul,
+    Finset.sum_ite_eq, Finset.mem_univ, if_true, star_neg, star_one, star_ofNat, apply_ite star, star_zero]
+  ring
+
+theorem basisChange_zero (R : Matrix (Unit ⊕ ι) (Unit ⊕ ι) ℂ) :
+    (basisChange ι * R * (basisChange ι)ᴴ) (.inl ()) (.inl ()) = R (.inl ()) (.inl ()) := by
+  simp [Matrix.mul_apply, Fintype.sum_sum_type, basisChange]
+
+/-- a PSD matrix in the projector basis (`R[1,1] = 1`, `R[P_i,P_i] = R[1,P_i]`) becomes a PSD matrix with unit
+    diagonal in the basis of ±1 observables -/
+theorem isMoment_basisChange (R : Matrix (Unit ⊕ ι) (Unit ⊕ ι) ℂ) (hR : R.PosSemidef)
+    (h1 : R (.inl ()) (.inl ()) = 1) (hp : ∀ i, R (.inr i) (.inr i) = R (.inl ()) (.inr i)) :
+    IsMoment (basisChange ι * R * (basisChange ι)ᴴ) := by
+  refine ⟨hR.mul_mul_conjTranspose_same _, ?_⟩
+  rintro (u | i)
+  · rw [basisChange_zero, h1]
+  · rw [basisChange_entry, h1]
+    have hd : star (R (.inr i) (.inr i)) = R (.inr i) (.inr i) := hR.isHermitian.apply _ _
+    have hc : R (.inr i) (.inl ()) = star (R (.inl ()) (.inr i)) := (hR.isHermitian.apply _ _).symm
+    rw [hc, ← hp i, hd]
+    ring
+
+end Basis
+
 end Toq.Xor
